@@ -255,6 +255,19 @@ class TDConfig:
     def bounded_inner(self):
         return 'bounded' in self.inner
 
+    def birth_params(self, i):
+        """(means, stds) of component i's normal / log-normal birth: fixed by the configuration,
+        different for every component and parameter; one configuration in three keeps the unit values."""
+        w = self.widths[i]
+        if self.inner_seed % 3 == 0:
+            return ([1.0] * w, [1.0 if self.birth == 'normal' else 0.7] * w)
+        if self.birth == 'normal':
+            mus, sds = (1.0, -0.5, 2.25, 0.0), (2.5, 0.3, 1.0, 0.75)
+        else:
+            mus, sds = (1.0, 2.0, 0.5, 3.0), (0.7, 0.3, 1.5, 1.0)
+        o = self.inner_seed
+        return ([mus[(o + i + j) % 4] for j in range(w)], [sds[(o + 2 * i + j) % 4] for j in range(w)])
+
     # ---- real objects
     def build(self):
         import families
@@ -270,9 +283,13 @@ class TDConfig:
             if self.birth == 'uniform':
                 births.append(P.UniformBirth(ns, {n: (self.birth_box or BOX) for n in ns}))
             elif self.birth == 'normal':
-                births.append(P.NormalBirth(ns, {n: 1.0 for n in ns}, {n: 1.0 for n in ns}))
+                # means and widths differ between components and parameters (and are not 1): a density
+                # that is only right for the unit normal, or that pairs them up wrongly, must show
+                mu, sd = self.birth_params(i)
+                births.append(P.NormalBirth(ns, dict(zip(ns, mu)), dict(zip(ns, sd))))
             else:
-                births.append(P.LogNormalBirth(ns, {n: 1.0 for n in ns}, {n: 0.7 for n in ns}))
+                mu, sd = self.birth_params(i)
+                births.append(P.LogNormalBirth(ns, dict(zip(ns, mu)), dict(zip(ns, sd))))
         cls = families.FAMILIES[self.model_prop][0]
         kw = dict(successive={'k': bool(self.successive)})
         if self.model_prop == 'discrete':
